@@ -13,7 +13,7 @@ LEVEL = "exploration"
 RULE = ("Hypothesis-generated histories (<=12 ops) of style-consistent mutations of Selector/ListSelector "
         ".objects (list-declared: [i]=, append, insert, extend, pop(i), pop(), remove, clear, replace; "
         "dict-declared: [k]=, update(mapping/pairs/kwargs), pop(k), pop(i), remove, clear, replace) interleaved with "
-        "value assignments, on the class-level Parameter or a per-instance copy; oracle = ordered (name, object) "
+        "value assignments (check_on_set=False: non-members, for ListSelector also lists naming a new object twice, are added; histories continue on objects holding such an unlabelled entry), on the class-level Parameter or a per-instance copy; oracle = ordered (name, object) "
         "list model compared after every op. Non-trivial = >=3 mutations incl. a removal, or a value assignment "
         "after a mutation; distinct = distinct case hash.")
 ASSUMPTIONS = [
@@ -71,13 +71,22 @@ def _op_dict():
 def _case(draw):
     decl = draw(st.sampled_from(["list", "dict"]))
     ops = draw(st.lists(_op_list() if decl == "list" else _op_dict(), min_size=1, max_size=12))
+    cos = draw(st.sampled_from([True, True, False]))
+    if not cos and draw(st.booleans()):
+        # an early assignment of a non-member (check_on_set=False adds it): the later mutations then run on objects
+        # that hold an automatically added entry
+        ops.insert(draw(st.integers(0, min(2, len(ops)))), ("setval", draw(_idx), False))
+        if decl == "dict" and draw(st.booleans()):
+            at = draw(st.integers(1, len(ops)))
+            ops.insert(at, ("setkey", draw(_idx), draw(_idx), False))
+            ops.insert(draw(st.integers(at + 1, len(ops))), ("popkey", 29))      # 29 % len: often the entry added last
     return {
         "kind": draw(st.sampled_from(["Selector", "ListSelector"])),
         "decl": decl,
         "level": draw(st.sampled_from(["class", "instance"])),
         "init": draw(st.lists(st.integers(0, NOBJ - 1), min_size=1, max_size=4, unique=True)),
         "watch": draw(st.booleans()),
-        "cos": draw(st.sampled_from([True, True, False])),
+        "cos": cos,
         "ops": [list(o) for o in ops],
     }
 
@@ -143,6 +152,10 @@ def execute(case):
     removal = False
     val_after_mut = False
 
+    def unl():
+        """dict-declared objects currently holding an object without a label (added automatically by an assignment)"""
+        return decl == "dict" and any(k is None for k, _ in model)
+
     def compare(tag):
         if after_permute and "[after-permute]" not in tag:
             tag = "[after-permute] " + tag
@@ -156,7 +169,7 @@ def execute(case):
         except Exception as e:  # noqa: BLE001
             res.fail("C18.items", f"after {tag}: objects.items() raised {e!r}")
             items = None
-        if auto_added and decl == "dict":
+        if unl():
             # the name under which an automatically added object is listed is unspecified: only require
             # that the name mapping describes the same objects as the list view
             if items is not None and [o for _, o in items] != want_objs:
@@ -164,11 +177,14 @@ def execute(case):
                                               f"describe the objects {want_objs!r}")
         elif items is not None and items != model:
             res.fail("C18.items", f"after {tag}: objects.items()={items!r} model={model!r}")
-        if decl == "dict" and not auto_added:
+        if decl == "dict" and not unl():
             if list(p.names.items()) != model and not (not model and not p.names):
                 res.fail("C18.names", f"after {tag}: names={dict(p.names)!r} model={model!r}")
         rng = p.get_range()
-        if list(rng.items()) != model:
+        if unl():
+            if list(rng.values()) != want_objs:
+                res.fail("C18.get_range", f"after {tag}: get_range()={list(rng.items())!r} does not describe the objects {want_objs!r}")
+        elif list(rng.items()) != model:
             res.fail("C18.get_range", f"after {tag}: get_range()={list(rng.items())!r} model={model!r}")
 
     def probe(tag):
@@ -197,6 +213,7 @@ def execute(case):
         mutated = True
         noclaim = False
         model_before = list(model)
+        unl_before = unl()
         objs = par().objects
         if name == "setidx":
             new = _fresh(model, op[2])
@@ -247,6 +264,8 @@ def execute(case):
             if i == j:
                 j = (i + 1) % len(model)
             (ki, oi), (kj, oj) = model[i], model[j]
+            if ki is None or kj is None:
+                continue
             pairs = [(ki, oj), (kj, oi)]
             if op[3] == "map":
                 objs.update(dict(pairs))
@@ -280,6 +299,8 @@ def execute(case):
             if not model:
                 continue
             i = op[1] % len(model)
+            if model[i][0] is None:
+                continue            # an object without a label cannot be popped by key
             k, want = model.pop(i)
             got = objs.pop(k)
             removal = True
@@ -298,6 +319,7 @@ def execute(case):
             objs.clear()
             del model[:]
             removal = True
+            auto_added = False
         elif name == "replace":
             news = []
             for s in op[1]:
@@ -313,6 +335,7 @@ def execute(case):
                 d = {KEYS[(i + 3) % NKEY]: o for i, o in enumerate(news)}
                 par().objects = d
                 model[:] = list(d.items())
+                auto_added = False
         elif name == "setkey":
             new = _fresh(model, op[2])
             if new is _NO:
@@ -320,6 +343,8 @@ def execute(case):
             if op[3] and model:   # existing key, new object
                 i = op[1] % len(model)
                 k = model[i][0]
+                if k is None:
+                    continue
                 objs[k] = new
                 model[i] = (k, new)
             else:
@@ -338,6 +363,8 @@ def execute(case):
                 if existing and shadow:
                     i = ki % len(shadow)
                     k = shadow[i][0]
+                    if k is None:
+                        continue
                     shadow[i] = (k, new)
                 else:
                     k = _freshkey(shadow, ki)
@@ -380,10 +407,13 @@ def execute(case):
                 if non is _NO:
                     continue
                 v = [non] if islist else non
+                if islist and op[1] % 2:
+                    # a ListSelector value may name the same object more than once (and members alongside)
+                    v = [non] + [o for _, o in model[:1]] + [non]
                 if not cos:
                     # check_on_set=False: a non-member is accepted and becomes a member
                     setattr(target, "s", v)
-                    model.append((str(non), non))
+                    model.append((str(non) if decl == "list" else None, non))
                     auto_added = True
                     res.label("auto_added")
                 else:
@@ -405,12 +435,15 @@ def execute(case):
         if mutated:
             nmut += 1
             if case["watch"] and len(log) - nlog != 1:
-                res.fail("C18.watcher_once", f"{tag}: objects watcher called {len(log) - nlog} times")
+                # with an unlabelled object present the event payload is computed from the name mapping alone, so a
+                # mutation touching only that object looks like "no change": same root cause as KF-C18-4
+                res.fail("C18.watcher_once", ("[auto-added-dict] " if (unl_before or unl()) else "") +
+                         f"{tag}: objects watcher called {len(log) - nlog} times")
             elif case["watch"]:
                 ev = log[-1][0]
                 want_new = [o for _, o in model]
                 got_new = list(ev.new.values()) if isinstance(ev.new, dict) else list(ev.new)
-                if auto_added and decl == "dict":
+                if unl():
                     res.dontcare += 1
                 elif got_new != want_new:
                     res.fail("C18.watcher_event_new", f"{tag}: event.new={ev.new!r} model={want_new!r}")
@@ -418,11 +451,15 @@ def execute(case):
             res.fail("C18.watcher_once", f"{tag}: objects watcher called for a non-mutation")
         nlog = len(log)
         compare(tag)
-        if after_permute or (auto_added and decl == "dict"):
-            # inside the region of a known finding (KF-C18-2 / KF-C18-4): the immediate comparison above
-            # is reported (and attributed to the finding); the history ends here
+        if after_permute:
+            # inside the region of a known finding (KF-C18-2): the immediate comparison above is reported (and
+            # attributed to the finding); the history ends here
             res.label("ended_in_known_region")
             break
+        if unl():
+            # KF-C18-4 (the automatically added object has no label): the name-mapping comparison is attributed to
+            # that finding, everything else (list view, range, pop results, membership) goes on being checked
+            res.label("continued_after_unlabelled_auto_add")
         probe(tag)
         if len(log) != nlog:
             res.fail("C18.watcher_once", f"{tag}: objects watcher called by reads/value assignments")
@@ -443,7 +480,7 @@ def _region_permute(case, v):
 def _region_autoadd(case, v):
     """KF-C18-4: dict-declared, check_on_set=False: an assigned non-member is appended to the list
     only, the name mapping never lists it."""
-    return v.clause == "C18.names_objects" and "[auto-added-dict]" in v.detail
+    return v.clause in ("C18.names_objects", "C18.watcher_once") and "[auto-added-dict]" in v.detail
 
 
 REGIONS = {"update_permutes_existing": _region_permute, "dict_autoadd_not_named": _region_autoadd}
